@@ -327,7 +327,7 @@ func (viso *VirtualISO) makeDirEntries(item *dirItem, joliet bool) error {
 		item.dirEntry = append(item.dirEntry, dotEntry, dotDotEntry)
 	}
 
-	totalSizeBytes += dotEntry.size() + dotDotEntry.size()
+	totalSizeBytes = totalSizeBytes.withRecord(dotEntry.size()).withRecord(dotDotEntry.size())
 
 	// file entries
 	for _, fileItem := range item.files {
@@ -371,7 +371,7 @@ func (viso *VirtualISO) makeDirEntries(item *dirItem, joliet bool) error {
 				item.dirEntry = append(item.dirEntry, entry)
 			}
 
-			totalSizeBytes += entry.size()
+			totalSizeBytes = totalSizeBytes.withRecord(entry.size())
 		}
 	}
 
@@ -402,7 +402,7 @@ func (viso *VirtualISO) makeDirEntries(item *dirItem, joliet bool) error {
 			item.dirEntry = append(item.dirEntry, entry)
 		}
 
-		totalSizeBytes += entry.size()
+		totalSizeBytes = totalSizeBytes.withRecord(entry.size())
 	}
 
 	if totalSizeBytes > maxPartSize-sectorSize {
@@ -645,7 +645,7 @@ func (viso *VirtualISO) writeFSStructures(gameCode string) error {
 	// iso directories
 	for _, item := range viso.rootDir {
 		for _, dirEntry := range item.dirEntry {
-			dirEntry.encode(&viso.fsBuf)
+			viso.fsBuf.appendDirectoryRecord(dirEntry)
 		}
 
 		viso.fsBuf.padLastSector()
@@ -654,7 +654,7 @@ func (viso *VirtualISO) writeFSStructures(gameCode string) error {
 	// joliet directories
 	for _, item := range viso.rootDir {
 		for _, dirEntry := range item.dirEntryJoliet {
-			dirEntry.encode(&viso.fsBuf)
+			viso.fsBuf.appendDirectoryRecord(dirEntry)
 		}
 
 		viso.fsBuf.padLastSector()
